@@ -6,23 +6,37 @@ import H2T.Lemmas.WrapInv
 
 namespace H2T
 
-/-- the outcome is a value or `TooNarrow` -/
-def Safe {α : Type} (r : Except Err α) : Prop := ∀ e, r = .error e → e = .tooNarrow
+/-- the outcome is a value or `TooNarrow` — and `TooNarrow` only when width overflow is not allowed (`ov` is the
+    `allow_width_overflow` flag in force) -/
+def Safe (ov : Bool) {α : Type} (r : Except Err α) : Prop := ∀ e, r = .error e → e = .tooNarrow ∧ ov = false
 
-theorem Safe.ok {α : Type} (a : α) : Safe (Except.ok a : Except Err α) := by intro e h; simp at h
-theorem Safe.narrow {α : Type} : Safe (Except.error .tooNarrow : Except Err α) := by intro e h; injection h with h; exact h.symm
+theorem Safe.ok {ov : Bool} {α : Type} (a : α) : Safe ov (Except.ok a : Except Err α) := by intro e h; simp at h
+theorem Safe.narrow {ov : Bool} {α : Type} (h : ov = false) : Safe ov (Except.error .tooNarrow : Except Err α) := by
+  intro e he; injection he with he; exact ⟨he.symm, h⟩
 
-theorem Safe.andThen {α β : Type} {x : Except Err α} {f : α → Except Err β} (hx : Safe x) (hf : ∀ a, x = .ok a → Safe (f a)) :
-    Safe (andThen x f) := by
+theorem Safe.andThen {ov : Bool} {α β : Type} {x : Except Err α} {f : α → Except Err β} (hx : Safe ov x) (hf : ∀ a, x = .ok a → Safe ov (f a)) :
+    Safe ov (andThen x f) := by
   cases x with
   | error e => intro e' h; simp [H2T.andThen] at h; subst h; exact hx e rfl
   | ok a => exact hf a rfl
+
+/-- whatever the flag, an error can only be `TooNarrow` -/
+theorem Safe.only_narrow {ov : Bool} {α : Type} {r : Except Err α} (h : Safe ov r) : ∀ e, r = .error e → e = .tooNarrow :=
+  fun e he => (h e he).1
+
+/-- with overflow allowed there is no error at all -/
+theorem Safe.is_ok {α : Type} {r : Except Err α} (h : Safe true r) : ∃ a, r = .ok a := by
+  cases r with
+  | ok a => exact ⟨a, rfl⟩
+  | error e => have := (h e rfl).2; simp at this
+
+theorem Safe.cast {ov ov' : Bool} {α : Type} {r : Except Err α} (h : Safe ov r) (e : ov = ov') : Safe ov' r := e ▸ h
 
 /-! ## hard wrap -/
 
 theorem pieceLoop_safe (w : Nat) : ∀ (fuel : Nat) (b : WB) (ll wpos : Nat) (rest : List Cell) (moved : Bool),
     b.Inv → ll ≤ b.width - b.linelen → wpos + cellsW rest = w →
-    rest.length + (if lw b.line = 0 then 0 else 1) < fuel → Safe (b.pieceLoop w fuel ll wpos rest moved) := by
+    rest.length + (if lw b.line = 0 then 0 else 1) < fuel → Safe b.overflow (b.pieceLoop w fuel ll wpos rest moved) := by
   intro fuel
   induction fuel with
   | zero => intro b ll wpos rest moved _ _ _ hf; omega
@@ -49,7 +63,7 @@ theorem pieceLoop_safe (w : Nat) : ∀ (fuel : Nat) (b : WB) (ll wpos : Nat) (re
         by_cases hnp : (taken.isEmpty && lw b.line = 0) = true
         · simp only [hnp, if_true]
           by_cases ho : b.overflow = true
-          · simp only [ho, if_true]
+          · rw [if_pos ho]
             have hpush : (b.pushCells [c]).wordlen = lw (b.pushCells [c]).word := hinv.wordlen_eq
             obtain ⟨hi2, hsame2, hl2⟩ := forceFlush_inv_overflow (b.pushCells [c]) hpush ho hinv.tag_ok
             have htk : taken = [] := by
@@ -57,7 +71,7 @@ theorem pieceLoop_safe (w : Nat) : ∀ (fuel : Nat) (b : WB) (ll wpos : Nat) (re
             apply ih _ _ _ _ _ hi2 (by rw [hl2]; simp [WB.forceFlush, WB.pushCells]) (by subst htk; simp at hs4 hrest; omega)
             have : lw (b.pushCells [c]).forceFlush.line = 0 := by simp [WB.forceFlush, lw]
             rw [this]; subst htk; simp at hlen; simp; omega
-          · simp only [ho]; exact Safe.narrow
+          · rw [if_neg ho]; exact Safe.narrow (by simpa using ho)
         · simp only [hnp, Bool.false_eq_true, if_false]
           have hfitT : b.linelen + cellsW taken ≤ b.width := by have := hinv.line_fit; omega
           have hi1 := pushCells_inv b taken hinv hfitT
@@ -78,7 +92,7 @@ theorem pieceLoop_safe (w : Nat) : ∀ (fuel : Nat) (b : WB) (ll wpos : Nat) (re
     · simp only [hgt, if_false]; exact Safe.ok _
 
 theorem hardWrapPiece_safe (b : WB) (ll : Nat) (piece : List Cell) (hinv : b.Inv) (hll : ll ≤ b.width - b.linelen) :
-    Safe (b.hardWrapPiece ll piece) := by
+    Safe b.overflow (b.hardWrapPiece ll piece) := by
   unfold WB.hardWrapPiece
   simp only
   apply Safe.andThen
@@ -92,7 +106,7 @@ theorem hardWrapPiece_safe (b : WB) (ll : Nat) (piece : List Cell) (hinv : b.Inv
     · exact Safe.ok _
     · split <;> exact Safe.ok _
 
-theorem hardWrapGo_safe (ps : List WItem) : ∀ (b : WB) (ll : Nat), b.Inv → ll ≤ b.width - b.linelen → Safe (b.hardWrapGo ll ps) := by
+theorem hardWrapGo_safe (ps : List WItem) : ∀ (b : WB) (ll : Nat), b.Inv → ll ≤ b.width - b.linelen → Safe b.overflow (b.hardWrapGo ll ps) := by
   induction ps with
   | nil => intro b ll _ _; simp only [WB.hardWrapGo]; exact Safe.ok _
   | cons p ps ih =>
@@ -111,10 +125,10 @@ theorem hardWrapGo_safe (ps : List WItem) : ∀ (b : WB) (ll : Nat), b.Inv → l
       | ok r =>
         obtain ⟨b1, ll1⟩ := r
         simp only
-        obtain ⟨i1, _, l1⟩ := hardWrapPiece_inv b b1 ll ll1 p hi hll hq
-        exact ih b1 ll1 i1 l1
+        obtain ⟨i1, k1, l1⟩ := hardWrapPiece_inv b b1 ll ll1 p hi hll hq
+        exact (ih b1 ll1 i1 l1).cast k1.same.overflow
 
-theorem hardWrap_safe (b : WB) (word : TLine) (hi : b.Inv) : Safe (b.hardWrap word) := by
+theorem hardWrap_safe (b : WB) (word : TLine) (hi : b.Inv) : Safe b.overflow (b.hardWrap word) := by
   unfold WB.hardWrap
   have : ¬ (b.linelen > b.width) := by have := hi.line_fit; omega
   simp only [this, if_false]
@@ -159,7 +173,7 @@ theorem wsLoop_ok : ∀ (fuel : Nat) (b : WB), 0 < b.width → (0 < b.wslen → 
             · simp [WB.pushWs]
           rw [hwl]; omega
 
-theorem placeFits_safe (b : WB) (hi : b.Inv) : Safe b.placeFits := by
+theorem placeFits_safe (b : WB) (hi : b.Inv) : Safe b.overflow b.placeFits := by
   unfold WB.placeFits
   split
   · rename_i hz
@@ -168,7 +182,7 @@ theorem placeFits_safe (b : WB) (hi : b.Inv) : Safe b.placeFits := by
     | some t => exact Safe.ok _
   · exact Safe.ok _
 
-theorem disposeWs_safe (b : WB) (m : WS) (hi : b.Inv) : Safe (b.disposeWs m) := by
+theorem disposeWs_safe (b : WB) (m : WS) (hi : b.Inv) : Safe b.overflow (b.disposeWs m) := by
   unfold WB.disposeWs
   split
   · split
@@ -181,7 +195,7 @@ theorem disposeWs_safe (b : WB) (m : WS) (hi : b.Inv) : Safe (b.disposeWs m) := 
       · exact Safe.ok _
   · exact Safe.ok _
 
-theorem startWordLine_safe (b : WB) (m : WS) (hi : b.Inv) (hw : 0 < b.width) : Safe (b.startWordLine m) := by
+theorem startWordLine_safe (b : WB) (m : WS) (hi : b.Inv) (hw : 0 < b.width) : Safe b.overflow (b.startWordLine m) := by
   unfold WB.startWordLine
   simp only
   obtain ⟨i1, s1, l1, ws1, st1, _, _⟩ := flushLine_inv b hi
@@ -192,7 +206,7 @@ theorem startWordLine_safe (b : WB) (m : WS) (hi : b.Inv) (hw : 0 < b.width) : S
   obtain ⟨b4, h4⟩ := wsLoop_ok (b3.wslen + 1) b3 hw3 ht3 (Nat.lt_succ_self _)
   rw [h4]; exact Safe.ok _
 
-theorem flushWord_safe (b : WB) (m : WS) (hi : b.Inv) (hw : 0 < b.width ∨ b.word.noContent = true) : Safe (b.flushWord m) := by
+theorem flushWord_safe (b : WB) (m : WS) (hi : b.Inv) (hw : 0 < b.width ∨ b.word.noContent = true) : Safe b.overflow (b.flushWord m) := by
   unfold WB.flushWord
   by_cases hn : b.word.noContent = true
   · simp only [hn, if_true]; exact Safe.ok _
@@ -208,11 +222,11 @@ theorem flushWord_safe (b : WB) (m : WS) (hi : b.Inv) (hw : 0 < b.width ∨ b.wo
       intro b1 h1
       obtain ⟨i1, s1, _, _⟩ := disposeWs_inv _ b1 m i0 h1
       have hw1 : 0 < b1.width := by rw [s1.width]; exact hw
-      apply Safe.andThen (startWordLine_safe b1 m i1 hw1)
+      apply Safe.andThen ((startWordLine_safe b1 m i1 hw1).cast s1.overflow)
       intro b4 h4
-      obtain ⟨i4, _, _, _⟩ := startWordLine_inv b1 b4 m i1 h4
+      obtain ⟨i4, s4, _, _⟩ := startWordLine_inv b1 b4 m i1 h4
       have i5 : ({ b4 with word := [], wordlen := 0 } : WB).Inv := ⟨i4.linelen_eq, rfl, i4.line_fit, i4.text_fit, i4.tag_ok⟩
-      apply Safe.andThen (hardWrap_safe _ _ i5)
+      apply Safe.andThen ((hardWrap_safe _ _ i5).cast (s4.overflow.trans s1.overflow))
       intro b5 _
       exact Safe.ok _
 
@@ -276,11 +290,11 @@ theorem tabLoop_ok (tag : Tag) : ∀ (fuel : Nat) (b : WB) (pos : Nat) (one : Bo
 theorem Same.width_pos {b b' : WB} (h : Same b b') (hw : 0 < b.width) : 0 < b'.width := by rw [h.width]; exact hw
 
 theorem addChar_safe (b : WB) (m : WS) (mt wt : Tag) (cur : Bool) (c : Ch) (hi : b.Inv) (hw : 0 < b.width) :
-    Safe (b.addChar m mt wt cur c) := by
+    Safe b.overflow (b.addChar m mt wt cur c) := by
   unfold WB.addChar
   simp only
   generalize hr : (if (c.ws && decide (b.wordlen > 0)) = true then b.flushWord m else Except.ok b) = r
-  have hsafe : Safe r := by
+  have hsafe : Safe b.overflow r := by
     rw [← hr]; split
     · exact flushWord_safe b m hi (Or.inl hw)
     · exact Safe.ok _
@@ -317,7 +331,7 @@ theorem addChar_safe (b : WB) (m : WS) (mt wt : Tag) (cur : Bool) (c : Ch) (hi :
       · exact Safe.ok _
 
 theorem addTextGo_safe (m : WS) (mt wt : Tag) (cs : List Ch) : ∀ (b : WB) (cur : Bool), b.Inv → 0 < b.width →
-    Safe (b.addTextGo m mt wt cur cs) := by
+    Safe b.overflow (b.addTextGo m mt wt cur cs) := by
   induction cs with
   | nil => intro b cur _ _; simp only [WB.addTextGo]; exact Safe.ok _
   | cons c cs ih =>
@@ -330,12 +344,12 @@ theorem addTextGo_safe (m : WS) (mt wt : Tag) (cs : List Ch) : ∀ (b : WB) (cur
       obtain ⟨b', cur'⟩ := r
       simp only
       obtain ⟨i1, s1⟩ := addChar_inv b b' m mt wt cur cur' c hi hc
-      exact ih b' cur' i1 (s1.width_pos hw)
+      exact (ih b' cur' i1 (s1.width_pos hw)).cast s1.overflow
 
 /-- a block that can be finished: it has a positive width, or it never accepted any text -/
 def WB.Live (b : WB) : Prop := 0 < b.width ∨ b.word.noContent = true
 
-theorem addText_safe (b : WB) (m : WS) (mt wt : Tag) (cs : List Ch) (hi : b.Inv) : Safe (b.addText m mt wt cs) := by
+theorem addText_safe (b : WB) (m : WS) (mt wt : Tag) (cs : List Ch) (hi : b.Inv) : Safe b.overflow (b.addText m mt wt cs) := by
   unfold WB.addText
   unfold WB.zeroGuard
   by_cases hw : b.width = 0
@@ -349,7 +363,7 @@ theorem addText_safe (b : WB) (m : WS) (mt wt : Tag) (cs : List Ch) (hi : b.Inv)
     · simp only [ho]
       cases cs with
       | nil => simp [andThen, WB.addTextGo]; exact Safe.ok _
-      | cons c cs => simp [andThen]; exact Safe.narrow
+      | cons c cs => simp [andThen]; exact Safe.narrow (by simpa using ho)
   · simp only [hw, if_false, andThen]
     exact addTextGo_safe m mt wt cs _ _ hi (Nat.pos_of_ne_zero hw)
 
@@ -374,7 +388,7 @@ theorem addText_inv' (m : WS) (mt wt : Tag) (cs : List Ch) (b b' : WB) (hi : b.I
     obtain ⟨i2, s2⟩ := addTextGo_inv m mt wt cs _ b' _ hi h
     exact ⟨i2, Or.inl (by rw [s2.width]; exact Nat.pos_of_ne_zero hw), s2.overflow, s2.pad⟩
 
-theorem finish_safe (b : WB) (hi : b.Inv) (hl : b.Live) : Safe b.finish := by
+theorem finish_safe (b : WB) (hi : b.Inv) (hl : b.Live) : Safe b.overflow b.finish := by
   unfold WB.finish
   apply Safe.andThen (flushWord_safe b .normal hi hl)
   intro b' _
